@@ -35,6 +35,16 @@ warp_func, gp_samples, stobads, plot, restarts).  With every option at its defau
 (bit-identically) like the original.
 
 """,
+"twofactor": """## Focus for this task
+
+Your change must need TWO circumstances AT THE SAME TIME to manifest, each of which alone leaves behaviour exactly
+(bit-identically) as in the original: for example (a specific documented option set to a valid non-default value) AND
+(a particular noise mode, a log-scaled or unbounded variable, a non-box constraint, D = 1 or D >= 4, x0 omitted, a point
+on a bound, a repeated observation, an empty search set, a failed GP fit).  Avoid the unused / unsupported options
+(acq_hedge, fit_lik, warp_func, gp_samples, stobads, plot, restarts).  Show in your demo that each circumstance alone is
+harmless and that only the combination breaks the property.
+
+""",
 "numeric": """## Focus for this task
 
 Your change must be a NUMERICAL / BOUNDARY slip: a strict comparison turned non-strict (or the reverse), a tolerance
